@@ -76,16 +76,17 @@ impl TryFrom<&[AST]> for Context {
 fn check_inheritance_acyclic(classes: &HashSet<GenericClass>) -> TypeResult<()> {
     for class in classes {
         // a type parameter as parent becomes whatever it is substituted with, also the class itself
-        let params = class.name.generics.iter().flat_map(|g| g.names.iter());
-        let params: HashSet<&str> = params.map(|n| n.variant.name.as_str()).collect();
-        if let Some(parent) = class
-            .parents
-            .iter()
-            .find(|p| params.contains(p.name.variant.name.as_str()))
-        {
+        let is_param = |name: &str| {
+            let mut params = class.name.generics.iter();
+            params.any(|g| g.names.iter().any(|n| n.variant.name == name))
+        };
+        let parents = class.parents.iter().map(|p| p.name.variant.name.as_str());
+        let mut parents: Vec<&str> = parents.filter(|parent| is_param(parent)).collect();
+        parents.sort_unstable();
+        if let Some(parent) = parents.first() {
             let msg = format!(
-                "{} cannot inherit from its type parameter {}",
-                class.name, parent.name
+                "{} cannot inherit from its type parameter {parent}",
+                class.name
             );
             return Err(vec![TypeErr::new(class.pos, &msg)]);
         }
